@@ -1,7 +1,6 @@
 pub assume_specification<T: Clone> [<[T]>::to_vec](s: &[T]) -> (r: Vec<T>) ensures r@ == s@;
 #[verifier::external_body] pub struct DeserializeError { _p: core::marker::PhantomData<u8> }
 impl From<DeserializeError> for JsError { #[verifier::external_body] fn from(e: DeserializeError) -> JsError { unimplemented!() } }
-macro_rules! opaque_types { ($($n:ident),* $(,)?) => { verus!{ $( #[verifier::external_body] pub struct $n { _p: core::marker::PhantomData<u8> } )* } } }
 opaque_types!(TransactionBody, AuxiliaryData, Vkeywitness, BootstrapWitness, PrivateKey, Bip32PrivateKey, LegacyDaedalusPrivateKey, ByronAddress,
     NativeScripts, PlutusScripts, PlutusList, Redeemers);
 pub struct TransactionHash(pub [u8; 32]);
